@@ -174,6 +174,7 @@ func (m *Module) DeepCopyEnv(oldEnv, newEnv *GlobalEnvironment) *Module {
 		NamespaceBase: MakeNamespaceBase(m.docComment, m.name),
 		defined:       m.defined,
 		native:        m.native,
+		ivarIndices:   m.ivarIndices,
 	}
 	if parentNamespace != nil {
 		parentNamespace.DefineSubtype(value.ToSymbol(moduleConstantPath[len(moduleConstantPath)-1]), newModule)
